@@ -15,7 +15,7 @@ import (
 
 func init() {
 	register(&Def{ID: "C04", Engine: "E2+E1", Run: runC04,
-		Rule: "writes: element type x shape x view state (atlas layouts, view-graph states to depth 2, one-element views with a wide storage window) x whole-tensor write operation, on an identity-coded root; the whole root is diffed against (model values inside the view's image, untouched outside). " +
+		Rule: "writes: element type x shape x view state (atlas layouts, view-graph states to depth 2, one-element views with a wide storage window) x whole-tensor write operation (Memset, Zero, SetAt sweep, Copy, CopyTo, physical transposition, unsafe unary operations, every in-place arithmetic operation with a tensor or with a scalar on either side, reuse and increment destinations), on an identity-coded root; the whole root is diffed against (model values inside the view's image, untouched outside). " +
 			"copies: element type x shape x source layout x copy operation, and - from NON-INITIAL states - every slice/transpose view state of the view graph (depth 2) x {Clone, Materialize, SafeT, Copy, CopyTo}; logical equality by At sweep, storage disjointness by write probes in both directions. one case = (dtype, shape, state, operation); non-trivial = the view's image is a proper subset of the root (writes) / the source has >1 element (copies)",
 		Assume: []string{"view states and their cell maps are those of the C02/C03 model; states whose access pattern differs from the model (C02/C03 findings) are skipped and counted",
 			"a refused write is accepted when nothing outside the view changed (whether the operation must succeed is C06/C07's question)"}})
